@@ -293,6 +293,21 @@ def standin_key_algebra(tier, seed):
             got = reads(cirq.with_key_path_prefix(op, p1))
             if got != want:
                 fails.append(dict(args=dict(reader=kind, key=repr(k), prefix=p1, got=sorted(got)), failed="reader-key-prefix", clause=f"the prefixed operation reads {sorted(got)}, the prefixed keys are {sorted(want)}"))
+    # repeating a repeated operation: the ids are the documented product (new ids x existing ids, the new ones outermost), the
+    # repetitions multiply, and the unrolled circuit measures under those ids in that order
+    rep_base = cirq.CircuitOperation(cirq.FrozenCircuit(cirq.X(q[0]) ** 0.5, cirq.measure(q[0], key="a")))
+    for ids1, ids2 in ((["i", "j"], ["x", "y"]), (["i"], ["x", "y", "z"]), (["i", "j", "k"], ["x"])):
+        cases += 1
+        twice = rep_base.repeat(len(ids1), ids1).repeat(len(ids2), ids2)
+        want_ids = [f"{o}-{i}" for o in ids2 for i in ids1]
+        got_keys = [str(cirq.measurement_key_name(o)) for o in twice.mapped_circuit().all_operations() if cirq.is_measurement(o)]
+        if list(twice.repetition_ids or []) != want_ids or twice.repetitions != len(want_ids) or got_keys != [f"{r}:a" for r in want_ids]:
+            fails.append(dict(args=dict(first_ids=ids1, second_ids=ids2, repetition_ids=list(twice.repetition_ids or []), unrolled_keys=got_keys), failed="repeat-of-repeat",
+                              clause=f"repeat(ids1).repeat(ids2): ids {list(twice.repetition_ids or [])}, unrolled keys {got_keys}; documented product (new ids outermost): {want_ids}"))
+        nested = cirq.CircuitOperation(cirq.FrozenCircuit(rep_base.repeat(len(ids1), ids1))).repeat(len(ids2), ids2)
+        nested_keys = [str(cirq.measurement_key_name(o)) for o in nested.mapped_circuit(deep=True).all_operations() if cirq.is_measurement(o)]
+        if nested_keys != [f"{o}:{i}:a" for o in ids2 for i in ids1]:
+            fails.append(dict(args=dict(first_ids=ids1, second_ids=ids2, unrolled_keys=nested_keys), failed="repeat-of-repeat", clause="a repeated sub-circuit inside a repeated sub-circuit: keys are not outer:inner:key in execution order"))
     base = cirq.CircuitOperation(cirq.FrozenCircuit(cirq.CNOT(q[0], q[1]), cirq.measure(q[2], key="a")))
     perms = [dict(zip(q, p)) for p in itertools.permutations(q)]
     for f, g in itertools.product(perms, repeat=2):
